@@ -228,6 +228,41 @@ def run(ctx):
                    what='the block count of an index file is trusted although the checksum does not cover it: a corrupted count makes the '
                         'column lose its last blocks without an error')
 
+    R10 = 'C18-R10'
+    ctx.rule(R10, 'a damaged index file is reported, not crashed on: ColumnIndex::from_bytes slices its input at `len - footer size` only behind a '
+                  'test of the length with an error exit, and the Vec it fills is not sized by the block count of the footer alone (that count '
+                  'is not covered by the checksum): the capacity passes through `min` or does not come from the footer')
+    fb2 = prog.body(FROM_BYTES)
+    if ctx.anchor(R10, FROM_BYTES, fb2 is not None):
+        errs = fb2.error_exit_blocks()
+        slices = [c for c in fb2.calls if re.search(r'ops::Index(Mut)?::index(_mut)?$', c.fn or '')]
+        len_tests = []
+        for i, bl in enumerate(fb2.blocks):
+            t = bl['term']
+            if t['k'] != 'switch' or bl['cleanup'] or t['discr']['k'] == 'const':
+                continue
+            src = origin_locals(fb2, t['discr']['pl']['l'], depth=4)
+            cmpd = any(kind == 'assign' and p_.get('rv') == 'binop' and p_['op'] in ('Lt', 'Le', 'Gt', 'Ge') for x in src for _, kind, p_ in local_defs(fb2, x))
+            lens = any(c.dest['l'] in src and re.search(r'::len$', c.fn or '') for c in fb2.calls)
+            if cmpd and lens and fb2.reachable_from([i], avoid={c.bb for c in slices}) & errs:
+                len_tests.append(i)
+        if ctx.anchor(R10, 'from_bytes: slicing of the input', slices):
+            ok = bool(len_tests) and all(fb2.dominated_by_any(set(len_tests), c.bb) for c in slices)
+            ctx.ob(R10, 'from_bytes·length-checked-before-slicing', ok,
+                   f'input sliced at {[c.bb for c in slices]}; length tests with an error exit before: {len_tests}', [site(fb2, c.bb) for c in slices][:2],
+                   what='ColumnIndex::from_bytes computes `len - footer size` without looking at the length: an index file cut below its footer '
+                        'panics the process at open (attempt to subtract with overflow) instead of reporting corruption')
+        caps = [c for c in fb2.calls if re.search(r'Vec::<.*>::with_capacity$|Vec::<.*>::reserve', c.name or '')]
+        if ctx.anchor(R10, 'from_bytes: allocation for the entries', caps):
+            for c in caps:
+                src = origin_locals(fb2, c.args[0]['pl']['l'], depth=6) if c.args and c.args[0]['k'] != 'const' else set()
+                from_footer = any(k.dest['l'] in src and re.search(r'Buf::get_u(32|64)$|Buf::get_i(32|64)$', k.fn or '') for k in fb2.calls)
+                bounded = any(k.dest['l'] in src and re.search(r'cmp::Ord::min$|cmp::min$', k.fn or '') for k in fb2.calls)
+                ctx.ob(R10, 'from_bytes·allocation-not-sized-by-the-footer', (not from_footer) or bounded,
+                       f'capacity at block {c.bb}: from a footer field: {from_footer}; bounded by min: {bounded}', [site(fb2, c.bb)],
+                       what='ColumnIndex::from_bytes allocates as many entries as the unchecked block count of the footer says: a flipped high bit '
+                            'panics the process at open (capacity overflow) instead of reporting corruption')
+
     R9 = 'C18-R9'
     ctx.rule(R9, 'the checksum type that decides HOW a block is verified is not taken from the unverified block itself: a corrupted trailer '
                  '(e.g. zeroed: type None, checksum 0) otherwise verifies trivially. In Column::get_block the type given to '
